@@ -176,6 +176,14 @@ At(img, p) == CHOOSE e \in img : e.path = p
 Has(img, p) == \E e \in img : e.path = p
 Paths(es) == {e.path : e \in es}
 
+\* a directory made inside a set-gid directory inherits that bit (mkdir semantics, nothing a helper asks for)
+SetGid(m) == (m \div 1024) % 2 = 1
+ModeFits(img, e) ==
+    LET o == At(img, e.path) IN
+    \/ o.mode = e.mode
+    \/ /\ e.kind = "dir" /\ ~SetGid(e.mode) /\ o.mode = e.mode + 1024
+       /\ Len(e.path) > 1 /\ Has(img, Dir(e.path)) /\ SetGid(At(img, Dir(e.path)).mode)
+
 \* clauses violated by `img` as the result of an accepted call with explicit entries `es`
 \* a: the call (for dosym -r / dohard);  may: directories that may appear without content
 ImageClauses(prev, img, es, may, a) ==
@@ -192,7 +200,7 @@ ImageClauses(prev, img, es, may, a) ==
        \cup (IF \A e \in exact : Has(img, e.path) => At(img, e.path).kind = e.kind THEN {} ELSE {"Kind"})
        \cup (IF \A p \in implied : Has(img, p) => At(img, p).kind = "dir" THEN {} ELSE {"ImpliedDir"})
        \cup (IF \A e \in exact : Has(img, e.path) /\ At(img, e.path).kind = e.kind /\ e.mode # -1 /\ e.kind # "sym"
-                                 => At(img, e.path).mode = e.mode THEN {} ELSE {"Mode"})
+                                 => ModeFits(img, e) THEN {} ELSE {"Mode"})
        \cup (IF \A e \in exact : Has(img, e.path) /\ e.kind = "file" /\ At(img, e.path).kind = "file" /\ e.cid # "*hard*"
                                  => At(img, e.path).cid = e.cid THEN {} ELSE {"Content"})
        \cup (IF \A e \in exact : Has(img, e.path) /\ e.kind = "sym" /\ At(img, e.path).kind = "sym" /\ e.lnk # "*rel*"
